@@ -197,3 +197,58 @@ Proof.
   apply outs_of_all. apply Forall_app; split; [|repeat constructor].
   clear. induction j; simpl; constructor; auto.
 Qed.
+
+(* ---------------- the table as the code keys it ---------------- *)
+(* the two tables agree: under an injective key the entry of key t is token t's entry, and a Ready entry names t *)
+Definition agree (key : nat -> nat) (ktb : ktable) (tb : table) : Prop :=
+  forall t, erase (ktb (key t)) = tb t /\ (forall a, ktb (key t) = Some (KReady a) -> a = t).
+
+Lemma handle_k_exact key nd dflt ktb tb m :
+  (forall a b, key a = key b -> a = b) -> agree key ktb tb ->
+  snd (handle_k key nd dflt ktb m) = snd (handle nd dflt tb m) /\
+  agree key (fst (handle_k key nd dflt ktb m)) (fst (handle nd dflt tb m)).
+Proof.
+  intros Hinj Hag. destruct m as [t|t r]; cbn [handle_k handle].
+  - destruct (Hag t) as [E _]. destruct (ktb (key t)) as [ke|] eqn:Ek; cbn in E; rewrite <- E.
+    + destruct ke; cbn; (split; [reflexivity|]); intros u; unfold kupd, upd;
+        destruct (Nat.eqb_spec (key u) (key t)) as [Hk|Hk].
+      * apply Hinj in Hk. subst u. rewrite Nat.eqb_refl. cbn. split; [reflexivity|]. intros a Ha. inversion Ha. reflexivity.
+      * destruct (Nat.eqb_spec u t) as [->|Hu]; [congruence|]. apply Hag.
+      * apply Hinj in Hk. subst u. rewrite Nat.eqb_refl. cbn. split; [reflexivity|]. intros a Ha. inversion Ha. reflexivity.
+      * destruct (Nat.eqb_spec u t) as [->|Hu]; [congruence|]. apply Hag.
+    + cbn. split; [reflexivity|]. intros u. unfold kupd, upd.
+      destruct (Nat.eqb_spec (key u) (key t)) as [Hk|Hk].
+      * apply Hinj in Hk. subst u. rewrite Nat.eqb_refl. cbn. split; [reflexivity|]. intros a Ha. discriminate.
+      * destruct (Nat.eqb_spec u t) as [->|Hu]; [congruence|]. apply Hag.
+  - destruct (Hag t) as [E N]. destruct (ktb (key t)) as [ke|] eqn:Ek; cbn in E; rewrite <- E.
+    + destruct ke as [|a]; cbn.
+      * split; [reflexivity|exact Hag].
+      * rewrite (N a eq_refl). split; [reflexivity|]. intros u. unfold kupd, upd.
+        destruct (Nat.eqb_spec (key u) (key t)) as [Hk|Hk].
+        -- apply Hinj in Hk. subst u. rewrite Nat.eqb_refl. cbn. split; [reflexivity|]. intros b Hb. discriminate.
+        -- destruct (Nat.eqb_spec u t) as [->|Hu]; [congruence|]. apply Hag.
+    + cbn. split; [reflexivity|exact Hag].
+Qed.
+
+(* keyed by the whole id the gateway does, for every inbox sequence of any number of tokens, exactly what the model of
+   the theorems above does *)
+Theorem run_k_exact key nd dflt : (forall a b, key a = key b -> a = b) ->
+  forall ms ktb tb, agree key ktb tb -> snd (run_k key nd dflt ktb ms) = snd (run nd dflt tb ms).
+Proof.
+  intros Hinj. induction ms as [|m r IH]; intros ktb tb Hag; cbn [run_k run]; [reflexivity|].
+  destruct (handle_k_exact key nd dflt ktb tb m Hinj Hag) as [Ho Ha].
+  destruct (handle_k key nd dflt ktb m) as [k1 o1]. destruct (handle nd dflt tb m) as [t1 o2]. cbn [fst snd] in *.
+  specialize (IH k1 t1 Ha).
+  destruct (run_k key nd dflt k1 r) as [k2 os1]. destruct (run nd dflt t1 r) as [t2 os2]. cbn [snd] in *.
+  rewrite Ho, IH. reflexivity.
+Qed.
+
+Lemma agree_empty key : agree key kempty empty.
+Proof. intros t. split; [reflexivity|]. intros a H. discriminate. Qed.
+
+(* a key made from too little of the id (here: one key for everybody): token 2's request is taken for token 1's second
+   one, token 1's report is answered to token 2, token 1 never hears of its decision and token 2 was never probed *)
+Lemma refuted_coarse_key :
+  snd (run_k (fun _ => 0) [0; 1] None kempty [Ask 1; Ask 2; Report 1 [1]]) = [OProbe 1; ODecide 2 (Flow 1)] /\
+  snd (run [0; 1] None empty [Ask 1; Ask 2; Report 1 [1]]) = [OProbe 1; OProbe 2; ORequeue 1 [1]].
+Proof. split; reflexivity. Qed.
